@@ -228,6 +228,23 @@ func (r *excResolver) resolve(s excSiteKey) string {
 			return k
 		}
 	}
+	// an unexported field was renamed: with the names of selected fields erased the two
+	// fingerprints are the same (`info[i].values[t]` / `infos[i].keys[t]`); same function only
+	{
+		se := eraseFieldNames(s.fp)
+		var same []string
+		for k := range r.entries {
+			ek, ok := parseExcKey(k)
+			if ok && ek.fn == s.fn && ek.fp != s.fp && eraseFieldNames(ek.fp) == se && r.orphaned(k, ek, true) {
+				same = append(same, k)
+			}
+		}
+		sort.Strings(same)
+		for _, k := range same {
+			r.used[k] = true
+			return k
+		}
+	}
 	// the expression was rewritten inside the same function (a sub-expression hoisted into a
 	// local, an element copied out first): an orphaned entry of the same function and the same
 	// shape class — same operation on the same kind of container — still covers it, provided the
@@ -242,6 +259,38 @@ func (r *excResolver) resolve(s excSiteKey) string {
 		}
 		sort.Strings(sameClass)
 		for _, k := range sameClass {
+			r.used[k] = true
+			return k
+		}
+		// the construct moved into a helper and was rewritten on the way: an orphaned entry of the
+		// same package for the same operation on the same named field of the same type (a
+		// container that specific is the same data)
+		if r.crossFn && strings.Contains(containerOf(cls), ">.") {
+			var moved []string
+			for k := range r.entries {
+				ek, ok := parseExcKey(k)
+				if ok && ek.fn != s.fn && pkgOfFnKey(ek.fn) == pkgOfFnKey(s.fn) && r.orphaned(k, ek, false) && shapeClass(ek.fp) == cls && noNewLiterals(s.fp, ek.fp) {
+					moved = append(moved, k)
+				}
+			}
+			sort.Strings(moved)
+			for _, k := range moved {
+				r.used[k] = true
+				return k
+			}
+		}
+		// an index loop rewritten as a range over a re-slice of the same container (or the
+		// reverse): the orphaned entry of the other operation on the same kind of container, in
+		// the same function, states the same invariant about the container's length
+		var sameContainer []string
+		for k := range r.entries {
+			ek, ok := parseExcKey(k)
+			if ok && ek.fn == s.fn && r.orphaned(k, ek, true) && containerOf(shapeClass(ek.fp)) == containerOf(cls) && containerOf(cls) != "" && noNewLiterals(s.fp, ek.fp) {
+				sameContainer = append(sameContainer, k)
+			}
+		}
+		sort.Strings(sameContainer)
+		for _, k := range sameContainer {
 			r.used[k] = true
 			return k
 		}
@@ -457,4 +506,44 @@ func resolvePending(c *Ctx, r *Result, from int, table map[string]string, reach 
 			}
 		}
 	}
+}
+
+var fpFieldName = regexp.MustCompile(`\.[A-Za-z_][A-Za-z0-9_]*`)
+
+// eraseFieldNames replaces every `.name` selection outside the <type> parts of a fingerprint by `.*`.
+func eraseFieldNames(fp string) string {
+	var b strings.Builder
+	depth := 0
+	seg := ""
+	flush := func() {
+		b.WriteString(fpFieldName.ReplaceAllString(seg, ".*"))
+		seg = ""
+	}
+	for _, r := range fp {
+		switch {
+		case r == '<':
+			if depth == 0 {
+				flush()
+			}
+			depth++
+			b.WriteRune(r)
+		case r == '>' && depth > 0:
+			depth--
+			b.WriteRune(r)
+		case depth > 0:
+			b.WriteRune(r)
+		default:
+			seg += string(r)
+		}
+	}
+	flush()
+	return b.String()
+}
+
+// containerOf: the container part of a shape class ("index:<[]int>" / "slice:<[]int>" -> "<[]int>").
+func containerOf(cls string) string {
+	if i := strings.Index(cls, ":"); i >= 0 {
+		return cls[i+1:]
+	}
+	return ""
 }
